@@ -391,7 +391,8 @@ class Ombott:
             out = self._cast(self._handle(environ))
             # rfc2616 section 4.3
             if (
-                response._status_code in {100, 101, 204, 304}
+                100 <= response._status_code < 200
+                or response._status_code in {204, 304}
                 or environ['REQUEST_METHOD'] == 'HEAD'
             ):
                 close = getattr(out, 'close', None)
